@@ -9,7 +9,7 @@
 (***************************************************************************)
 EXTENDS ChangePoints
 
-CONSTANTS MaxLen, MaxRegs, MaxDepth, Alphabet, Palette, MaxTotalLen, WithParse
+CONSTANTS MaxLen, MaxRegs, MaxDepth, Alphabet, Palette, MaxTotalLen, WithParse, Seeded, Narrow
 
 VARIABLES ctab, ninst, depth, ev
 cvars == <<ctab, ninst, depth, ev>>
@@ -33,9 +33,22 @@ SetToSeq(S) == IF S = {} THEN << >> ELSE LET m == CHOOSE x \in S : TRUE IN <<m>>
 NoEvent == [op |-> "init", r |-> 0, a |-> [inplace |-> 0], out |-> "ok", res |-> << >>, same |-> 0,
             upd |-> << >>, o |-> [pyout |-> "ok"], tag |-> ""]
 
+\* Seeded initial states: register 1 holds a value built by TWO range applications (transcribed CPApply) on a text of
+\* MaxLen equal letters - nested, crossed, adjacent and coinciding ranges, on top and underneath.  Every seed is the
+\* result of a real two-step history (new; apply; apply), so the bounded search then starts two steps deep.
+SeedLetter == CHOOSE c \in Alphabet : TRUE
+SeedText == [i \in 1..MaxLen |-> SeedLetter]
+SeedRanges == {rg \in (0..MaxLen) \X (0..MaxLen) : rg[1] < rg[2]}
+SeedTabs ==
+  {CPApply(SeedText, CPApply(SeedText, EmptyTab, <<(<<1, x>>)>>, <<r1[1]>>, <<r1[2]>>, TRUE),
+           <<(<<2, y>>)>>, <<r2[1]>>, <<r2[2]>>, top)
+     : x \in Palette, y \in Palette, r1 \in SeedRanges, r2 \in SeedRanges, top \in BOOLEAN}
+
 Init ==
-  /\ ctab = [r \in Regs |-> NoObj]
-  /\ ninst = 0
+  /\ IF Seeded
+        THEN \E f \in SeedTabs : ctab = [r \in Regs |-> IF r = 1 THEN [k |-> "S", t |-> SeedText, f |-> f] ELSE NoObj]
+        ELSE ctab = [r \in Regs |-> NoObj]
+  /\ ninst = IF Seeded THEN 2 ELSE 0
   /\ depth = 0
   /\ ev = NoEvent
 
@@ -174,11 +187,13 @@ Render ==
                         valid |-> IF \A i \in DOMAIN v.s : \A k \in DOMAIN v.s[i] : ValidG(TextTable[v.s[i][k][2]]) THEN 1 ELSE 0,
                         parsable |-> IF TabParsable(c.f) THEN 1 ELSE 0]], 0)
 
+\* Narrow: the first step only makes a second value (new, slice, copy); everything is possible afterwards
 Next ==
   /\ depth < MaxDepth
-  /\ \/ (Free # {} /\ (New \/ Slice \/ Copy \/ Add \/ Pad \/ Replace))
-     \/ Apply \/ Remove \/ IAdd \/ Render \/ FindSettings \/ AssignStr
-     \/ (WithParse /\ ((Free # {} /\ (NewParsed \/ Reparse)) \/ Simplify))
+  /\ IF Narrow /\ depth = 0 THEN Free # {} /\ (New \/ Slice \/ Copy)
+     ELSE \/ (Free # {} /\ (New \/ Slice \/ Copy \/ Add \/ Pad \/ Replace))
+          \/ Apply \/ Remove \/ IAdd \/ Render \/ FindSettings \/ AssignStr
+          \/ (WithParse /\ ((Free # {} /\ (NewParsed \/ Reparse)) \/ Simplify))
 
 Spec == Init /\ [][Next]_cvars
 
